@@ -188,9 +188,6 @@ Qed.
 (* ---------------------------------------------------------------------------------------- *)
 (** * The folding step *)
 
-Definition built (r : outcome expr) (t : sexpr) : Prop :=
-  match r with Ok m => represents m t | _ => fails t end.
-
 Definition rebuilt (r : outcome expr) (t : sexpr) : Prop :=
   match r with Ok m => represents m t | LibError _ => fails t | RawExn _ => False end.
 
@@ -200,7 +197,7 @@ Proof. intros R. inversion R. assumption. Qed.
 Lemma raw_outcome_ok v z : raw_outcome v = Ok z -> v = Val z.
 Proof. destruct v as [|[]]; simpl; intros H; inversion H; reflexivity. Qed.
 
-Lemma gme_un u m a : represents m a -> built (get_minimized_expr (unop_name u) [m]) (SUn u a).
+Lemma gme_un u m a : represents m a -> rebuilt (get_minimized_expr (unop_name u) [m]) (SUn u a).
 Proof.
   intros R. unfold get_minimized_expr. destruct m; simpl forallb; cbv iota.
   - apply rep_int_inv in R. simpl int_values. rewrite apply_un_spec. simpl.
@@ -216,7 +213,7 @@ Proof.
 Qed.
 
 Lemma gme_bin o m1 m2 a b :
-  represents m1 a -> represents m2 b -> built (get_minimized_expr (binop_name o) [m1; m2]) (SBin o a b).
+  represents m1 a -> represents m2 b -> rebuilt (get_minimized_expr (binop_name o) [m1; m2]) (SBin o a b).
 Proof.
   intros R1 R2. unfold get_minimized_expr.
   destruct m1; simpl forallb; cbv iota; try (simpl; now apply RepBin).
@@ -230,7 +227,7 @@ Qed.
 
 Lemma gme_cond m1 m2 m3 c a b :
   represents m1 c -> represents m2 a -> represents m3 b ->
-  built (get_minimized_expr OCond [m1; m2; m3]) (SCond c a b).
+  rebuilt (get_minimized_expr OCond [m1; m2; m3]) (SCond c a b).
 Proof.
   intros R1 R2 R3. unfold get_minimized_expr.
   destruct m1; simpl forallb; cbv iota; try (simpl; now apply RepCond).
@@ -241,7 +238,7 @@ Proof.
   apply RepFolded. simpl. now rewrite R1, R2, R3.
 Qed.
 
-Lemma parse_build_built consts e : built (parse_build consts e) (subst (int_subst consts) e).
+Lemma parse_build_built consts e : rebuilt (parse_build consts e) (subst (int_subst consts) e).
 Proof.
   induction e; simpl.
   - apply RepFolded. reflexivity.
@@ -251,13 +248,13 @@ Proof.
   - destruct (parse_build consts e) as [m| |]; simpl in *.
     + now apply gme_un.
     + now apply fails_un.
-    + now apply fails_un.
-  - destruct (parse_build consts e1) as [m1| |]; simpl in *; try now apply fails_bin_l.
-    destruct (parse_build consts e2) as [m2| |]; simpl in *; try now apply fails_bin_r.
+    + contradiction.
+  - destruct (parse_build consts e1) as [m1| |]; simpl in *; [|now apply fails_bin_l|contradiction].
+    destruct (parse_build consts e2) as [m2| |]; simpl in *; [|now apply fails_bin_r|contradiction].
     now apply gme_bin.
-  - destruct (parse_build consts e1) as [m1| |]; simpl in *; try now apply fails_cond_1.
-    destruct (parse_build consts e2) as [m2| |]; simpl in *; try now apply fails_cond_2.
-    destruct (parse_build consts e3) as [m3| |]; simpl in *; try now apply fails_cond_3.
+  - destruct (parse_build consts e1) as [m1| |]; simpl in *; [|now apply fails_cond_1|contradiction].
+    destruct (parse_build consts e2) as [m2| |]; simpl in *; [|now apply fails_cond_2|contradiction].
+    destruct (parse_build consts e3) as [m3| |]; simpl in *; [|now apply fails_cond_3|contradiction].
     now apply gme_cond.
 Qed.
 
@@ -405,13 +402,12 @@ Proof.
     + now rewrite S.
     + contradiction.
   - simpl. symmetry. now apply fails_subst_all.
-  - simpl. symmetry. now apply fails_subst_all.
+  - contradiction.
 Qed.
 
-(* raw Python exceptions can only escape from the parser's folding *)
-Theorem raw_only_at_parse consts sms sts labels e st x :
-  Forall2 subst_represents sms sts ->
-  staged_trace consts sms labels e = (st, RawExn x) -> st = AtParse /\ parse_build consts e = RawExn x.
+(* no Python exception from outside the library's hierarchy escapes, at any stage *)
+Theorem no_raw_exception consts sms sts labels e st x :
+  Forall2 subst_represents sms sts -> staged_trace consts sms labels e <> (st, RawExn x).
 Proof.
   intros HF. unfold staged_trace.
   pose proof (parse_build_built consts e) as B.
@@ -421,7 +417,7 @@ Proof.
     rewrite (exact_eval_represents labels _ _ S) in H.
     destruct (eval labels _) as [z|[]]; discriminate.
   - discriminate.
-  - inversion H. auto.
+  - contradiction.
 Qed.
 
 Lemma int_substs_represent rhos : Forall2 subst_represents (map int_msubst rhos) (map int_subst rhos).
@@ -496,7 +492,7 @@ Proof.
     destruct (forallb is_int [a; b]) eqn:F.
     + destruct a; try discriminate. destruct b; try discriminate.
       unfold get_minimized_expr in H. simpl in H. rewrite apply_bin_spec in H.
-      destruct (raw_outcome (eval_bin o z z0)) eqn:RO; simpl in H; try discriminate. inversion H.
+      destruct (raw_outcome (eval_bin o z z0)) eqn:RO; try discriminate. inversion H.
       left. eexists. split; [reflexivity|]. simpl.
       rewrite (settled_int _ _ _ IHe1), (settled_int _ _ _ IHe2). now apply raw_outcome_ok.
     + rewrite gme_not_all_int in H by assumption. inversion H. right. split; [reflexivity|]. split.
@@ -542,9 +538,7 @@ Proof.
   - simpl. specialize (B (env_then consts no_env)). rewrite int_subst_eval in B.
     rewrite (eval_ext _ consts) in B; [now symmetry|]. intros s. unfold env_then.
     destruct (consts s); reflexivity.
-  - simpl. specialize (B (env_then consts no_env)). rewrite int_subst_eval in B.
-    rewrite (eval_ext _ consts) in B; [now symmetry|]. intros s. unfold env_then.
-    destruct (consts s); reflexivity.
+  - contradiction.
 Qed.
 
 (* ---------------------------------------------------------------------------------------- *)
